@@ -273,6 +273,40 @@ def _cut_after_found_newline(g, fx, n):
     return d.args[0].value if found else None
 
 
+def consumed_match(g, n):
+    """the Name of the match object whose end the consumption statement
+    `buf = X[<end>:]` cuts at: <end> is `m.end(..)` itself, or a local whose
+    every reaching definition is `m.end(..)` of one match variable"""
+    v = n.ast.value
+    if not (isinstance(v, ast.Subscript) and isinstance(v.slice, ast.Slice)
+            and v.slice.upper is None and v.slice.lower is not None):
+        return None
+    lo = v.slice.lower
+
+    def end_of(x):
+        if isinstance(x, ast.Call) and isinstance(x.func, ast.Attribute) \
+                and x.func.attr == 'end' and \
+                isinstance(x.func.value, ast.Name):
+            return x.func.value
+        return None
+    m = end_of(lo)
+    if m is not None:
+        return m
+    if isinstance(lo, ast.Name):
+        ds = common.reaching_defs(g, n, path_of(lo, n.frame))
+        ms = []
+        for d in ds:
+            if d is None or not isinstance(d.ast, ast.Assign):
+                return None
+            mm = end_of(d.ast.value)
+            if mm is None:
+                return None
+            ms.append(mm)
+        if ms and len({x.id for x in ms}) == 1:
+            return ms[0]
+    return None
+
+
 def _cut_by_partition(g, fx, n):
     """`buf = rest` with `line, sep, rest = X.partition(b'\\n')`, reached
     only where `sep` is truthy (a line feed was there): returns the
@@ -373,13 +407,9 @@ def g2(e: Engine, rep: Report, rule: str,
             rep.evaluations += 1
             v = n.ast.value
             # self.recv_buffer = input[match.end(0):]
-            ok_shape = isinstance(v, ast.Subscript) and \
-                isinstance(v.slice, ast.Slice) and v.slice.upper is None \
-                and isinstance(v.slice.lower, ast.Call) and \
-                isinstance(v.slice.lower.func, ast.Attribute) and \
-                v.slice.lower.func.attr == 'end'
-            mv = path_of(v.slice.lower.func.value, n.frame) if ok_shape \
-                else None
+            mnode = consumed_match(g, n)
+            ok_shape = mnode is not None
+            mv = path_of(mnode, n.frame) if ok_shape else None
             st = fx.at(n)
             # a match object is truthy: `m is not None` says as much as `m`
             ok = ok_shape and mv is not None and (
@@ -396,12 +426,10 @@ def g2(e: Engine, rep: Report, rule: str,
                         pats.add(s.ast.value.func.value.id)
             nl = [_regex_ends_in_newline(e, ctx.func.module.name, pn)
                   for pn in pats]
-            if not (ok and nl and all(x is True for x in nl)) and ok_shape \
-                    and isinstance(v.slice.lower.func.value, ast.Name):
+            if not (ok and nl and all(x is True for x in nl)) and ok_shape:
                 # the match came back from a helper that hands it over only
                 # where it matched
-                got = _match_patterns(g, fx, v.slice.lower.func.value,
-                                      n.frame)
+                got = _match_patterns(g, fx, mnode, n.frame)
                 if got:
                     nl2 = [_regex_ends_in_newline(e, ctx.func.module.name,
                                                   pn) for pn in got]
